@@ -314,7 +314,8 @@ fn handle(line: &str) -> String {
         "qs" => {
             let p = parse_fen(false, f[1]);
             let mut st = Stats::default();
-            let v = qsearch(&p, &mut st, f[2].parse().unwrap(), f[3].parse().unwrap(), 0);
+            let ply: i32 = if f.len() > 4 { f[4].parse().unwrap() } else { 0 };
+            let v = qsearch(&p, &mut st, f[2].parse().unwrap(), f[3].parse().unwrap(), ply);
             format!("v={} nodes={} sd={}", v, st.nodes, st.seldepth)
         }
         "root" => {
